@@ -208,14 +208,14 @@ func checkC03(c *Ctx) {
 	for _, f := range mutators {
 		imps := p.ErrorImpurities(f, w1)
 		if len(imps) == 0 {
-			c.Ok("R1", f.Name(), p.Pos(f.Pos()), "validate-before-mutate: no occupancy write on any path to an error exit")
+			c.Ok("R1", fnName(f), p.Pos(f.Pos()), "validate-before-mutate: no occupancy write on any path to an error exit")
 		}
 		for _, im := range imps {
 			if im.Mut == nil {
-				c.Undecided("R1", f.Name(), p.Pos(f.Pos()), "path enumeration aborted")
+				c.Undecided("R1", fnName(f), p.Pos(f.Pos()), "path enumeration aborted")
 				continue
 			}
-			c.Bad("R1", f.Name()+":"+describeMut(p, im.Mut)+"→"+describeExit(p, f, im.Exit), p.InstrPos(im.Mut),
+			c.Bad("R1", fnName(f)+":"+describeMut(p, im.Mut)+"→"+describeExit(p, f, im.Exit), p.InstrPos(im.Mut),
 				fmt.Sprintf("seat manager is modified (%s) and the operation can still fail at %s (%s): an error leaves a partial change", instrText(p, im.Mut), p.InstrPos(im.Exit), describeExit(p, f, im.Exit)),
 				"path "+p.TrailString(f, im.Trail))
 		}
@@ -273,8 +273,8 @@ func checkC03(c *Ctx) {
 		nOps++
 		where := p.Pos(f.Pos())
 		if creator[f] {
-			c.Except("R3", f.Name(), "table creation builds fresh state; on error the engine is discarded by the manager")
-			c.Ok("R3", f.Name()+":creation-exempt", where, "frozen exception: fresh state")
+			c.Except("R3", fnName(f), "table creation builds fresh state; on error the engine is discarded by the manager")
+			c.Ok("R3", fnName(f)+":creation-exempt", where, "frozen exception: fresh state")
 			continue
 		}
 		imps := p.ErrorImpurities(f, w3)
@@ -282,7 +282,7 @@ func checkC03(c *Ctx) {
 		inherit := map[string]bool{}
 		for _, im := range imps {
 			if im.Mut == nil {
-				c.Undecided("R3", f.Name(), where, "path enumeration aborted")
+				c.Undecided("R3", fnName(f), where, "path enumeration aborted")
 				continue
 			}
 			if im.Inherited {
@@ -290,7 +290,7 @@ func checkC03(c *Ctx) {
 				continue
 			}
 			mut, ex := describeMut(p, im.Mut), describeExit(p, f, im.Exit)
-			key := f.Name() + ":" + mut + "→" + ex
+			key := fnName(f) + ":" + mut + "→" + ex
 			// frozen exception: GetSeatID(id) right after the successful assignment of id cannot fail
 			if ex == "fail(SeatManager.GetSeatID)" && (mut == "SeatManager.AssignSeats" || mut == "SeatManager.RandomAssignSeats") && c03GetSeatAfterAssign(p, f) {
 				c.Except("R3", key, "GetSeatID(id) is queried for ids of the very batch the seat manager has just accepted; by the assigners' postcondition (R1/R2) it cannot fail")
@@ -306,7 +306,7 @@ func checkC03(c *Ctx) {
 			if len(inherit) > 0 {
 				d = "own paths clean; inherits from " + setStr(inherit)
 			}
-			c.Ok("R3", f.Name(), where, d)
+			c.Ok("R3", fnName(f), where, d)
 		}
 	}
 	c.Min("R3", "engine membership operations", nOps, 5)
@@ -449,7 +449,7 @@ func checkC03Pairing(c *Ctx, et interface{}) {
 			}
 			ok := v.Kind == "extract" && v.Name == "0" && v.Args[0].IsCall("SeatManager.GetSeatID") && idStore != nil &&
 				v.Args[0].Strip().Args[1].Strip().String() == idStore.Val.Strip().String()
-			c.Check(ok, "R4", f.Name()+":seat-of-new-player", p.InstrPos(ss.Instr), "Seat ← GetSeatID(that player's id)", "the seat recorded for a new player is "+v.String()+", not the seat manager's answer for that same player id")
+			c.Check(ok, "R4", fnName(f)+":seat-of-new-player", p.InstrPos(ss.Instr), "Seat ← GetSeatID(that player's id)", "the seat recorded for a new player is "+v.String()+", not the seat manager's answer for that same player id")
 			if ok {
 				gcall := v.Args[0].Strip().Call
 				after := true
@@ -459,7 +459,7 @@ func checkC03Pairing(c *Ctx, et interface{}) {
 						after = false
 					}
 				}
-				c.Check(after, "R4", f.Name()+":seat-read-after-assign", p.InstrPos(gcall), "seat read after assignment", "the seat is read from the seat manager before the player has been assigned")
+				c.Check(after, "R4", fnName(f)+":seat-read-after-assign", p.InstrPos(gcall), "seat read after assignment", "the seat is read from the seat manager before the player has been assigned")
 			}
 			// seat-map patch uses the same seat
 			patched := false
@@ -469,7 +469,7 @@ func checkC03Pairing(c *Ctx, et interface{}) {
 					patched = true
 				}
 			}
-			c.Check(patched, "R4", f.Name()+":seat-map-patch", p.InstrPos(ss.Instr), "seat map patched at that seat", "the new seat map is not patched at the seat the seat manager assigned")
+			c.Check(patched, "R4", fnName(f)+":seat-map-patch", p.InstrPos(ss.Instr), "seat map patched at that seat", "the new seat map is not patched at the seat the seat manager assigned")
 			// the value patched in is the index the new player will have in the final list:
 			// len(old list) + len(new players so far) - 1
 			for _, s3 := range p.Stores([]*ssa.Function{f}) {
@@ -491,16 +491,16 @@ func checkC03Pairing(c *Ctx, et interface{}) {
 						}
 					}
 				}
-				c.Check(okIdx, "R4", f.Name()+":seat-map-patch-index", p.InstrPos(s3.Instr), "seat ↦ len(old players) + len(new players so far) - 1", "the seat map entry of a new player is "+iv.String()+", not the index that player gets in the extended player list")
+				c.Check(okIdx, "R4", fnName(f)+":seat-map-patch-index", p.InstrPos(s3.Instr), "seat ↦ len(old players) + len(new players so far) - 1", "the seat map entry of a new player is "+iv.String()+", not the index that player gets in the extended player list")
 			}
 		}
-		c.Min("R4", "new-player seat stores in "+f.Name(), n, 1)
+		c.Min("R4", "new-player seat stores in "+fnName(f), n, 1)
 		// R6b: the player list only grows by append(old, new...)
 		for _, ss := range p.Stores([]*ssa.Function{f}) {
 			if ss.Owner == "TableState" && ss.Field == "PlayerStates" {
 				v := ss.Val.Strip()
 				ok := v.Kind == "builtin" && v.Name == "append" && v.Args[0].Strip().IsField("TableState", "PlayerStates")
-				c.Check(ok, "R4", f.Name()+":list-grows-by-append", p.InstrPos(ss.Instr), "PlayerStates = append(PlayerStates, new...)", "existing players may be reordered or dropped when adding: "+v.String())
+				c.Check(ok, "R4", fnName(f)+":list-grows-by-append", p.InstrPos(ss.Instr), "PlayerStates = append(PlayerStates, new...)", "existing players may be reordered or dropped when adding: "+v.String())
 			}
 		}
 	}
@@ -540,7 +540,7 @@ func checkC03Pairing(c *Ctx, et interface{}) {
 					}
 				}
 			}
-			c.Check(ok && ids.Kind == "param", "R4", f.Name()+":same-id-list", p.InstrPos(ci), "RemoveSeats(ids) with the ids that filtered the player list", "the ids freed in the seat manager are not the ids removed from the player list")
+			c.Check(ok && ids.Kind == "param", "R4", fnName(f)+":same-id-list", p.InstrPos(ci), "RemoveSeats(ids) with the ids that filtered the player list", "the ids freed in the seat manager are not the ids removed from the player list")
 		}
 	}
 	// R5 capacity
@@ -563,13 +563,13 @@ func checkC03Pairing(c *Ctx, et interface{}) {
 				ok := cmpHolds(gs, func(l, r *Sym, op token.Token) bool {
 					return (op == token.NEQ || op == token.LSS) && l.IsCall("len") && l.Strip().Args[0].Strip().IsField("TableState", "PlayerStates") && r.Strip().IsField("TableMeta", "TableMaxSeatCount")
 				})
-				c.Check(ok, "R5", f.Name()+":capacity-guard", p.InstrPos(ci), "buy-in guarded by len(PlayerStates) vs TableMaxSeatCount", "a new player can be added without comparing the number of players with the table's seat count")
+				c.Check(ok, "R5", fnName(f)+":capacity-guard", p.InstrPos(ci), "buy-in guarded by len(PlayerStates) vs TableMaxSeatCount", "a new player can be added without comparing the number of players with the table's seat count")
 				// the full branch returns the no-empty-seats sentinel
 				memo := map[*ssa.Function]map[string]bool{}
-				c.Check(p.errorsReturned(f, memo)["ErrTableNoEmptySeats"], "R5", f.Name()+":full-table-error", p.Pos(f.Pos()), "full table → ErrTableNoEmptySeats", "a full table is no longer reported as ErrTableNoEmptySeats")
+				c.Check(p.errorsReturned(f, memo)["ErrTableNoEmptySeats"], "R5", fnName(f)+":full-table-error", p.Pos(f.Pos()), "full table → ErrTableNoEmptySeats", "a full table is no longer reported as ErrTableNoEmptySeats")
 			} else if creatorHasCapacityGuard(p, f, ci) {
 				nCap++
-				c.Ok("R5", f.Name()+":creation-capacity-guard", p.InstrPos(ci), "creation batch guarded by len(JoinPlayers) vs TableMaxSeatCount")
+				c.Ok("R5", fnName(f)+":creation-capacity-guard", p.InstrPos(ci), "creation batch guarded by len(JoinPlayers) vs TableMaxSeatCount")
 			}
 		}
 	}
@@ -900,7 +900,7 @@ func checkSeatMapCtor(c *Ctx, rule string) {
 		if d == "" && (!okLen || nFill == 0) {
 			d = "a new seat map is not one unset entry per seat"
 		}
-		c.Check(d == "", rule, "seat-map-constructor:"+f.Name(), p.Pos(f.Pos()), "one unset entry per seat", "new seat map: "+d)
+		c.Check(d == "", rule, "seat-map-constructor:"+fnName(f), p.Pos(f.Pos()), "one unset entry per seat", "new seat map: "+d)
 	}
 	c.Min(rule, "seat-map constructors", n, 1)
 }
